@@ -47,6 +47,12 @@ type Result struct {
 	// simulator took over; MapOrderOwned is false when type checking failed (then
 	// Go's per-process random order remains and replays inside such loops are
 	// only probabilistic).
+	// GoStmts and ChanOps count the library's own go statements and channel operations
+	// (send, receive, range, close, select) that the simulator took over: the goroutines
+	// become simulated tasks, the channel operations wait cooperatively (zsimrt/go.go, chan.go).
+	GoStmts       int    `json:"go_statements_owned"`
+	ChanOps       int    `json:"channel_operations_owned"`
+	NeedsGo123    bool   `json:"-"`
 	MapRanges     int    `json:"map_ranges_owned"`
 	MapOrderOwned bool   `json:"map_order_owned"`
 	TypeCheckNote string `json:"typecheck_note,omitempty"`
@@ -178,13 +184,20 @@ func Instrument(root string, plain bool) (*Result, error) {
 		}
 	}
 
-	// type information (only used to recognise `range` over a map)
-	mapRange := map[*ast.RangeStmt]bool{}
+	// type information: `range` over a map or a channel, calls of the builtin close,
+	// constant or nil arguments of go statements
+	ti := &typeInfo{mapRange: map[*ast.RangeStmt]bool{}, chanRange: map[*ast.RangeStmt]bool{}, closeCall: map[*ast.CallExpr]bool{}, constExpr: map[ast.Expr]bool{}}
+	mapRange := ti.mapRange
+	typesOK := false
 	if !plain {
-		note := typeCheck(fset, mod, files, parsed, mapRange)
+		note := typeCheck(fset, mod, files, parsed, ti)
 		res.TypeCheckNote = note
 		res.MapOrderOwned = note == ""
+		typesOK = note == ""
 	}
+	ownConc := !plain && typesOK // the library's own goroutines and channel operations can be taken over
+	selN := 0
+	goN := 0
 
 	for _, f := range files {
 		af := parsed[f]
@@ -234,6 +247,8 @@ func Instrument(root string, plain bool) (*Result, error) {
 			}
 		}
 
+		commOp := map[ast.Node]bool{}      // the communication of a select case: left as it is
+		recv2 := map[*ast.UnaryExpr]bool{} // receives whose second result is used
 		nSites := 0
 		addSite := func(st ast.Stmt) {
 			switch st.(type) {
@@ -283,17 +298,25 @@ func Instrument(root string, plain bool) (*Result, error) {
 				for _, st := range v.Body {
 					addSite(st)
 				}
-			case *ast.CommClause:
-				for _, st := range v.Body {
-					addSite(st)
-				}
 			case *ast.RangeStmt:
 				if mapRange[v] && !plain {
 					res.MapRanges++
 					edits = append(edits, edit{off: tf.Offset(v.X.Pos()), text: "zsimrt.MapSeq("})
 					edits = append(edits, edit{off: tf.Offset(v.X.End()), text: ")"})
 				}
+				if ti.chanRange[v] && ownConc {
+					res.ChanOps++
+					res.NeedsGo123 = true
+					edits = append(edits, edit{off: tf.Offset(v.X.Pos()), text: "zsimrt.ChanSeq("})
+					edits = append(edits, edit{off: tf.Offset(v.X.End()), text: ")"})
+				}
 			case *ast.CallExpr:
+				if ti.closeCall[v] && ownConc {
+					if id, ok := v.Fun.(*ast.Ident); ok {
+						res.ChanOps++
+						edits = append(edits, edit{off: tf.Offset(id.Pos()), del: len(id.Name), text: "zsimrt.ChanClose"})
+					}
+				}
 				// callbacks that the runtime runs on a goroutine of its own: the simulator cannot own them
 				if sel, ok := v.Fun.(*ast.SelectorExpr); ok {
 					if id, ok := sel.X.(*ast.Ident); ok {
@@ -304,17 +327,188 @@ func Instrument(root string, plain bool) (*Result, error) {
 						}
 					}
 				}
+			case *ast.SelectorExpr:
+				// channels fed by the runtime's timers fire in real time: not something the simulator owns
+				if id, ok := v.X.(*ast.Ident); ok && id.Name == "time" {
+					switch v.Sel.Name {
+					case "After", "Tick", "NewTimer", "NewTicker":
+						res.Unowned = append(res.Unowned, fmt.Sprintf("%s:%d: time.%s (a channel fed by a runtime timer)", f, fset.Position(v.Pos()).Line, v.Sel.Name))
+					}
+				}
 			case *ast.GoStmt:
-				res.Unowned = append(res.Unowned, fmt.Sprintf("%s:%d: go statement", f, fset.Position(v.Pos()).Line))
+				if !ownConc {
+					res.Unowned = append(res.Unowned, fmt.Sprintf("%s:%d: go statement", f, fset.Position(v.Pos()).Line))
+					break
+				}
+				res.GoStmts++
+				goN++
+				call := v.Call
+				if _, isLit := call.Fun.(*ast.FuncLit); isLit && len(call.Args) == 0 {
+					// go func() {…}()  ->  zsimrt.Go( func() {…})
+					edits = append(edits, edit{off: tf.Offset(v.Pos()), del: 2, text: "zsimrt.Go("})
+					edits = append(edits, edit{off: tf.Offset(call.Lparen), del: tf.Offset(call.Rparen) + 1 - tf.Offset(call.Lparen), text: ")"})
+					break
+				}
+				// go F(A0, A1)  ->  { _zf := F; _za0 := A0; _za1 := A1; zsimrt.Go(func() { _zf(_za0, _za1) }) }
+				// (function value and arguments are evaluated by the go statement itself; constant
+				// and nil arguments are written into the call instead: `:=` would fix their type)
+				fn := "_zf" + strconv.Itoa(goN)
+				edits = append(edits, edit{off: tf.Offset(v.Pos()), del: 2, text: "{ " + fn + " :="})
+				var callArgs []string
+				prevEnd := tf.Offset(call.Lparen) // start of the text still to be replaced
+				first := true
+				for i, a := range call.Args {
+					aOff, aEnd := tf.Offset(a.Pos()), tf.Offset(a.End())
+					if ti.constExpr[a] {
+						callArgs = append(callArgs, string(b[aOff:aEnd]))
+						// drop "(" or ", " and the argument's own text
+						edits = append(edits, edit{off: prevEnd, del: aEnd - prevEnd, text: ""})
+						prevEnd = aEnd
+						continue
+					}
+					an := "_za" + strconv.Itoa(goN) + "_" + strconv.Itoa(i)
+					callArgs = append(callArgs, an)
+					edits = append(edits, edit{off: prevEnd, del: aOff - prevEnd, text: "; " + an + " := "})
+					prevEnd = aEnd
+					first = false
+				}
+				_ = first
+				dots := ""
+				if call.Ellipsis.IsValid() {
+					dots = "..."
+				}
+				edits = append(edits, edit{off: prevEnd, del: tf.Offset(call.Rparen) + 1 - prevEnd,
+					text: "; zsimrt.Go(func() { " + fn + "(" + strings.Join(callArgs, ", ") + dots + ") }) }"})
+			case *ast.CommClause:
+				for _, st := range v.Body {
+					addSite(st)
+				}
+				// the communication itself stays what it is (a real channel operation inside a real select)
+				switch c := v.Comm.(type) {
+				case *ast.SendStmt:
+					commOp[c] = true
+				case *ast.ExprStmt:
+					if u, ok := unparen(c.X).(*ast.UnaryExpr); ok && u.Op == token.ARROW {
+						commOp[u] = true
+					}
+				case *ast.AssignStmt:
+					if len(c.Rhs) == 1 {
+						if u, ok := unparen(c.Rhs[0]).(*ast.UnaryExpr); ok && u.Op == token.ARROW {
+							commOp[u] = true
+						}
+					}
+				}
+				if v.Comm != nil && ownConc {
+					edits = append(edits, edit{off: tf.Offset(v.Colon) + 1, text: " zsimrt.ChanEvent();"})
+				}
 			case *ast.SelectStmt:
-				res.Unowned = append(res.Unowned, fmt.Sprintf("%s:%d: select", f, fset.Position(v.Pos()).Line))
+				if !ownConc {
+					res.Unowned = append(res.Unowned, fmt.Sprintf("%s:%d: select", f, fset.Position(v.Pos()).Line))
+					break
+				}
+				if len(v.Body.List) == 0 {
+					res.Unowned = append(res.Unowned, fmt.Sprintf("%s:%d: select {} (blocks for ever)", f, fset.Position(v.Pos()).Line))
+					break
+				}
+				res.ChanOps++
+				var defaultCl *ast.CommClause
+				calls := false
+				var sendChecks []string
+				var comms []*ast.CommClause
+				for _, cl := range v.Body.List {
+					cc := cl.(*ast.CommClause)
+					if cc.Comm == nil {
+						defaultCl = cc
+						continue
+					}
+					comms = append(comms, cc)
+					ast.Inspect(cc.Comm, func(x ast.Node) bool {
+						switch y := x.(type) {
+						case *ast.CallExpr, *ast.FuncLit:
+							calls = true
+						case *ast.UnaryExpr:
+							if y.Op == token.ARROW && !isCommTop(cc.Comm, y) {
+								calls = true // a nested receive: evaluated on entering the select
+							}
+						}
+						return true
+					})
+					if snd, ok := cc.Comm.(*ast.SendStmt); ok {
+						x := string(b[tf.Offset(snd.Chan.Pos()):tf.Offset(snd.Chan.End())])
+						sendChecks = append(sendChecks, "("+x+") != nil && cap("+x+") == 0")
+					}
+				}
+				n := len(comms)
+				if n == 0 || defaultCl != nil && n == 1 && len(sendChecks) == 0 {
+					break // never blocks, nothing to choose, no send that could need a parked receiver
+				}
+				if calls {
+					res.Unowned = append(res.Unowned, fmt.Sprintf("%s:%d: select whose cases call functions (a retry would evaluate them again)", f, fset.Position(v.Pos()).Line))
+					break
+				}
+				selN++
+				lbl := "_zsel" + strconv.Itoa(selN)
+				edits = append(edits, edit{off: tf.Offset(v.Pos()), text: lbl + ": "})
+				if n > 1 {
+					// the simulator owns which ready case is taken: one case enabled per attempt
+					for i, cc := range comms {
+						var ch ast.Expr
+						switch c := cc.Comm.(type) {
+						case *ast.SendStmt:
+							ch = c.Chan
+						case *ast.ExprStmt:
+							ch = unparen(c.X).(*ast.UnaryExpr).X
+						case *ast.AssignStmt:
+							ch = unparen(c.Rhs[0]).(*ast.UnaryExpr).X
+						}
+						edits = append(edits, edit{off: tf.Offset(ch.Pos()), text: "zsimrt.SelCh(" + strconv.Itoa(i) + ", " + strconv.Itoa(n) + ", "})
+						edits = append(edits, edit{off: tf.Offset(ch.End()), text: ")"})
+					}
+				}
+				if defaultCl != nil {
+					args := append([]string{strconv.Itoa(n)}, sendChecks...)
+					edits = append(edits, edit{off: tf.Offset(defaultCl.Colon) + 1, text: " if zsimrt.SelMore(" + strings.Join(args, ", ") + ") { goto " + lbl + " };"})
+				} else {
+					args := append([]string{strconv.Itoa(n)}, sendChecks...)
+					edits = append(edits, edit{off: tf.Offset(v.Body.Rbrace), text: "default: zsimrt.ChanWait(" + strings.Join(args, ", ") + "); goto " + lbl + "\n"})
+				}
 			case *ast.SendStmt:
-				res.Unowned = append(res.Unowned, fmt.Sprintf("%s:%d: channel send", f, fset.Position(v.Pos()).Line))
-			case *ast.ChanType:
-				res.Unowned = append(res.Unowned, fmt.Sprintf("%s:%d: channel type", f, fset.Position(v.Pos()).Line))
+				if commOp[v] {
+					break
+				}
+				if !ownConc {
+					res.Unowned = append(res.Unowned, fmt.Sprintf("%s:%d: channel send", f, fset.Position(v.Pos()).Line))
+					break
+				}
+				res.ChanOps++
+				edits = append(edits, edit{off: tf.Offset(v.Chan.Pos()), text: "zsimrt.ChanSend("})
+				edits = append(edits, edit{off: tf.Offset(v.Chan.End()), del: tf.Offset(v.Arrow) + 2 - tf.Offset(v.Chan.End()), text: ")("})
+				edits = append(edits, edit{off: tf.Offset(v.Value.End()), text: ")"})
+			case *ast.AssignStmt:
+				if len(v.Lhs) == 2 && len(v.Rhs) == 1 {
+					if u, ok := unparen(v.Rhs[0]).(*ast.UnaryExpr); ok && u.Op == token.ARROW {
+						recv2[u] = true
+					}
+				}
+			case *ast.ValueSpec:
+				if len(v.Names) == 2 && len(v.Values) == 1 {
+					if u, ok := unparen(v.Values[0]).(*ast.UnaryExpr); ok && u.Op == token.ARROW {
+						recv2[u] = true
+					}
+				}
 			case *ast.UnaryExpr:
-				if v.Op == token.ARROW {
-					res.Unowned = append(res.Unowned, fmt.Sprintf("%s:%d: channel receive", f, fset.Position(v.Pos()).Line))
+				if v.Op == token.ARROW && !commOp[v] {
+					if !ownConc {
+						res.Unowned = append(res.Unowned, fmt.Sprintf("%s:%d: channel receive", f, fset.Position(v.Pos()).Line))
+						break
+					}
+					res.ChanOps++
+					name := "zsimrt.ChanRecv("
+					if recv2[v] {
+						name = "zsimrt.ChanRecv2("
+					}
+					edits = append(edits, edit{off: tf.Offset(v.OpPos), del: 2, text: name})
+					edits = append(edits, edit{off: tf.Offset(v.X.End()), text: ")"})
 				}
 			}
 			return true
@@ -349,7 +543,35 @@ func Instrument(root string, plain bool) (*Result, error) {
 // library's own packages from the parsed files) and records which range
 // statements iterate over a map. It returns "" on success, else why map order
 // could not be taken over.
-func typeCheck(fset *token.FileSet, mod string, files []string, parsed map[string]*ast.File, out map[*ast.RangeStmt]bool) (note string) {
+type typeInfo struct {
+	mapRange  map[*ast.RangeStmt]bool
+	chanRange map[*ast.RangeStmt]bool
+	closeCall map[*ast.CallExpr]bool // calls of the builtin close
+	constExpr map[ast.Expr]bool      // arguments of go statements that are constants or nil
+}
+
+func unparen(e ast.Expr) ast.Expr {
+	for {
+		p, ok := e.(*ast.ParenExpr)
+		if !ok {
+			return e
+		}
+		e = p.X
+	}
+}
+
+// isCommTop: u is the receive that IS the communication of a select case (not one nested in its operands).
+func isCommTop(comm ast.Stmt, u *ast.UnaryExpr) bool {
+	switch c := comm.(type) {
+	case *ast.ExprStmt:
+		return unparen(c.X) == ast.Expr(u)
+	case *ast.AssignStmt:
+		return len(c.Rhs) == 1 && unparen(c.Rhs[0]) == ast.Expr(u)
+	}
+	return false
+}
+
+func typeCheck(fset *token.FileSet, mod string, files []string, parsed map[string]*ast.File, ti *typeInfo) (note string) {
 	defer func() {
 		if r := recover(); r != nil {
 			note = fmt.Sprintf("type checker panicked: %v", r)
@@ -393,10 +615,26 @@ func typeCheck(fset *token.FileSet, mod string, files []string, parsed map[strin
 		done[path] = p
 		for _, af := range byDir[dirOf[path]] {
 			ast.Inspect(af, func(n ast.Node) bool {
-				if rs, ok := n.(*ast.RangeStmt); ok {
-					if tv, ok := info.Types[rs.X]; ok && tv.Type != nil {
-						if _, isMap := tv.Type.Underlying().(*types.Map); isMap {
-							out[rs] = true
+				switch v := n.(type) {
+				case *ast.RangeStmt:
+					if tv, ok := info.Types[v.X]; ok && tv.Type != nil {
+						switch tv.Type.Underlying().(type) {
+						case *types.Map:
+							ti.mapRange[v] = true
+						case *types.Chan:
+							ti.chanRange[v] = true
+						}
+					}
+				case *ast.CallExpr:
+					if id, ok := v.Fun.(*ast.Ident); ok && id.Name == "close" {
+						if tv, ok := info.Types[v.Fun]; ok && tv.IsBuiltin() {
+							ti.closeCall[v] = true
+						}
+					}
+				case *ast.GoStmt:
+					for _, a := range v.Call.Args {
+						if tv, ok := info.Types[a]; ok && (tv.Value != nil || tv.IsNil()) {
+							ti.constExpr[a] = true
 						}
 					}
 				}
@@ -599,5 +837,6 @@ func WriteSiteTable(root string, res *Result, instrumented bool) error {
 	fmt.Fprintf(&sb, "\n// UsesSync: some library file imports package sync (rewritten to the cooperative shim).\nconst UsesSync = %v\n", res.UsesSync)
 	fmt.Fprintf(&sb, "\n// UsesAtomic: some library file imports sync/atomic (rewritten to the zatomic shim).\nconst UsesAtomic = %v\n", res.UsesAtomic)
 	fmt.Fprintf(&sb, "\n// UsesTime: some library file imports package time (rewritten to the ztime shim).\nconst UsesTime = %v\n", res.UsesTime)
+	fmt.Fprintf(&sb, "\n// OwnsGo: the library has go statements and the simulator runs its goroutines as tasks (go.go, solo.go).\nconst OwnsGo = %v\n", instrumented && res.GoStmts > 0)
 	return os.WriteFile(filepath.Join(root, "internal", "zsimrt", "sites_gen.go"), []byte(sb.String()), 0o644)
 }
